@@ -51,4 +51,9 @@ META = {
   text="The model has no engine parameter: that the five template sets render the same engine-erased handler is established on every run by comparing the five go/ast extractions with each other and with the model. Interchangeability of traces then follows for equal framework inputs.",
   note="Partial by nature: AccessorsAgree (frameworks deliver equal raw values) is sampled by the rig stream, not proved.",
  ),
+ "C11": dict(
+  technique="Lean 4 proof (dialect translation preserves the accepted numbers; numeric-bound converters of both versions agree up to dialect under one-rule-per-side, with a decided counterexample outside) + implementation-vs-implementation diff of the two real documents after translation",
+  text="The structural part of both documents is one model function (tied separately to each emitter by C01/C04/C06). The dialect translation used by the checker is proved meaning-preserving and the 3.0/3.1 numeric-bound converters are proved equivalent under it; every run diffs the two real documents of the same IR after translation, member by member, with no model in the loop, so a change to one converter or emitter only is caught even where the model lags.",
+  note="Known divergences are open findings (C11-F1..F4, C07-F1), each recognised by a signature; any other difference is a violation.",
+ ),
 }
